@@ -1,7 +1,7 @@
 (** C04 — a specification-conformant controller can pair, verify and talk. *)
 From Coq Require Import String.
 From HC Require Import Base.HBytes Base.ChaChaPoly Gen.Extracted Model.Spec Model.Charac Model.Framing Model.Hap
-  Proofs.HapProofs Proofs.SpecProofs Proofs.FramingProofs.
+  Proofs.HapProofs Proofs.SpecProofs Proofs.FramingProofs Model.Srp Proofs.SrpProofs.
 Open Scope N_scope.
 
 (** From EVERY world (any store contents, other connections in any state), on a fresh connection,
@@ -66,3 +66,33 @@ Theorem C04_session_interop : forall shared msgs, Forall rd_wf msgs ->
   = map (fun r => Some (concat r)) msgs.
 Proof. exact both_directions_sequence. Qed.
 Print Assumptions C04_session_interop.
+
+(** SRP-6a itself, over the integers (the world model above treats the proof symbolically): for EVERY
+    group modulus, generator, user name, setup code, salt and secrets a (controller) and b (accessory),
+    a controller that computes A, the premaster secret, K, M1 and the expected M2 as the specification
+    says, against an accessory that holds the verifier of the same code, is ACCEPTED: the accessory
+    derives the same key K and answers with exactly the proof the controller expects — unless one of
+    the accessory's degenerate-value guards (A = 0 mod N, u = 0, A v^u <= 1) fires, in which case it
+    refuses before deriving a key.  It is never the proof comparison that fails.
+    ([mexp_spec b e n] is [b ^ e mod n]; the correspondence run evaluates the same [client] with a fast
+    exponentiation proved equal to it in Proofs/SrpFast.v and compares A, M1 and M2 with what hc's
+    accessory accepted and answered.) *)
+Theorem C04_srp_completes : forall G user pin salt a b,
+  (0 < gN G)%Z -> (0 <= a)%Z -> (0 <= b)%Z ->
+  let v := verifier mexp_spec G (srp_x user pin salt) in
+  let c := client mexp_spec G user pin a salt (zbe (server_B mexp_spec G v b)) in
+  match server mexp_spec G user salt v b (cA c) (cM1 c) with
+  | SrvOk K M2 => K = cK c /\ M2 = cM2 c
+  | SrvBadProof => False
+  | _ => True
+  end.
+Proof. exact srp_completes. Qed.
+Print Assumptions C04_srp_completes.
+
+(** the premaster secrets agree for all exponents (the algebra behind it) *)
+Theorem C04_srp_agreement : forall G x a b u, (0 < gN G)%Z -> (0 <= x)%Z -> (0 <= a)%Z -> (0 <= b)%Z -> (0 <= u)%Z ->
+  let v := verifier mexp_spec G x in
+  client_S mexp_spec G (srp_k G) x a u (server_B mexp_spec G v b)
+  = mexp_spec (server_base mexp_spec G v u (mexp_spec (gg G) a (gN G))) b (gN G).
+Proof. exact srp_agreement. Qed.
+Print Assumptions C04_srp_agreement.
